@@ -1466,6 +1466,16 @@ int32_t tls13ParseServerHello(ssl_t *ssl,
         psTraceIntInfo("Can't support requested cipher: %d\n", cipher);
         return MATRIXSSL_ERROR;
     }
+    /* "A client which receives a cipher suite that was not offered MUST
+       abort the handshake with an illegal_parameter alert." */
+    if (ssl->cipher->ident == SSL_NULL_WITH_NULL_NULL
+            || !clientOfferedCipherSuite(ssl, cipher))
+    {
+        ssl->cipher = sslGetCipherSpec(ssl, SSL_NULL_WITH_NULL_NULL);
+        ssl->err = SSL_ALERT_ILLEGAL_PARAMETER;
+        psTraceIntInfo("Server chose a cipher we did not offer: %d\n", cipher);
+        return MATRIXSSL_ERROR;
+    }
     if (compressionMethod != 0)
     {
         ssl->err = SSL_ALERT_ILLEGAL_PARAMETER;
